@@ -178,7 +178,7 @@ def r2(ctx):
         else:
             ctx.ob(fi.qual, "results-order:%s" % u(v)[:40], False, fi.loc(s), "`%s = %s` reaches aggregate_results without an ascending-block-id guarantee" % (rname, u(v)[:80]))
     # handles consumed in submission order
-    gets = [n for n in walk_function(fi.node) if isinstance(n, ast.ListComp) and isinstance(n.elt, ast.Call) and isinstance(n.elt.func, ast.Attribute) and n.elt.func.attr == "get"]
+    gets = [n for n in walk_function(fi.node) if isinstance(n, (ast.ListComp, ast.GeneratorExp)) and isinstance(n.elt, ast.Call) and isinstance(n.elt.func, ast.Attribute) and n.elt.func.attr == "get"]
     ok = (None if not gets else (len(gets) == 1 and u(gets[0].generators[0].iter) == "process_results" and u(gets[0].elt.func.value) == u(gets[0].generators[0].target)))
     ctx.ob(fi.qual, "handles-consumed-in-submission-order", ok, fi.loc(gets[0]) if gets else fi.loc(), "every apply_async handle is waited for, in submission order" if ok else "pool handles are not collected as [res.get() for res in process_results]")
     # block id travels with the job
